@@ -89,7 +89,17 @@ def generate(r, tier):
                     td["body"] = {"nested": [gen.gen_ticket(r, tid + ".c%d" % k, sync_units, profile, depth=1, u=u if k == 0 else None) for k in range(r.randint(1, 2))]}
                 script.append(td)
             else:
-                script.append(gen.gen_ticket(r, tid, units, profile))
+                td = gen.gen_ticket(r, tid, units, profile)
+                ocls = {o["name"]: o["cls"] for o in world.get("objects", ())}
+                uu = [x for x in units if x["fn"] == td.get("fn") and x["obj"] == td.get("obj")]
+                if td.get("obj") in ocls and uu and uu[0]["invs"] and not uu[0]["async"] and r.random() < 0.2:
+                    # an invariant that constructs ANOTHER instance of the class (``self == Vector(self.x, self.y)``): the new
+                    # object's constructor is a call on another object and is fully checked
+                    isid = r.choice(uu[0]["invs"])
+                    td.setdefault("sites", {}).setdefault(isid, {}).setdefault("nested", []).append(
+                        {"id": tid + ".nw", "fn": "__init__", "op": "new", "cls": ocls[td["obj"]], "obj": "nw_%s_%d" % (name, j)}
+                    )
+                script.append(td)
         scn["actors"].append({"name": name, "script": script})
     if scn.get("shared_context"):
         scn["after"] = [gen.gen_ticket(r, "z.%d" % i, units, dict(profile, p_nested=0.0, p_fault=0.0)) for i in range(r.randint(1, 3))]
@@ -288,6 +298,16 @@ def judge(run, engine, only_actor=None):
                                 "detail": {"call": tx.xid, "unit": tx.unit, "obj": tx.obj, "class": cname, "declared": sorted(declared), "evaluated": sorted(seen_i)},
                             }
                         )
+        # -- invariants after the constructor of an object that is not already in progress
+        if info.get("kind") == "ctor" and info.get("has_inv") and v[0] == "ret" and not any(x.endswith("-same-obj") for x in rel):
+            if "inv" not in tx.kinds and "inverr" not in tx.kinds:
+                violations.append(
+                    {
+                        "rule": "C10.R2",
+                        "classifier": "%s:invariants-skipped:ctor:%s" % (engine, "from-invariant" if any(f[0] == "inv" for f in tx.stack_at_call) else "plain"),
+                        "detail": {"call": tx.xid, "unit": tx.unit, "obj": tx.obj, "caller_stack": [list(f) for f in tx.stack_at_call], "verdict": v},
+                    }
+                )
         # -- R3: an unchecked call still runs its body once and hands its result back
         if not must and not observed and v[0] == "ret":
             if tx.bodies != 1 or v[1] not in ("own", "none"):
